@@ -208,3 +208,135 @@ Example parities_premises_met :
   exists p, parities_ising shots [(1 # 2, [0; 1]%nat); (2 # 1, [])] = Ok p /\
     par_values p = [(1, 3); (4, 0)]%Z.
 Proof. vm_compute. eexists. split; reflexivity. Qed.
+
+(* ---------------------------------------------------------------- generated code = model
+   The functions below are TRANSLATED from the Python source on every run (tr/tr_measurements.py ->
+   Gen/MeasurementsGen.v; the meaning of the Python building blocks is Stats/MeasureTrSupport.v, which re-uses
+   Stats/DistTrSupport.v) and PROVED equal to the model functions that the theorems above are about
+   (Stats/MeasureGenProofs.v).  Embeddings: tup r = the tuple of the ints 0/1 of a shot, str r = the str of its
+   characters, eshots = the value of self.bitstrings, ecounts = the Dict[str, int] with those keys in that order,
+   zs = qubit indices as Python ints; floats are read as exact rationals (num_Q).  Left hand-modelled (numpy / operator
+   objects): Measurements.get_expectation_values and get_parities_from_measurements; every entry they report is
+   obtained through the functions translated here (see generated_efreq_of_counts_is_model). *)
+Require Import Coq.Strings.String.
+Require Import OQ.Stats.DistTrSupport OQ.Stats.MeasureTrSupport OQ.Gen.MeasurementsGen OQ.Stats.MeasureGenProofs.
+
+Theorem generated_tuple_to_bitstring_is_model : forall N r, tuple_to_bitstring_gen N (tup r) = Ret (str r).
+Proof. exact tuple_to_bitstring_gen_is_model. Qed.
+Print Assumptions generated_tuple_to_bitstring_is_model.
+
+Theorem generated_convert_tuples_to_bitstrings_is_model : forall N l,
+  convert_tuples_to_bitstrings_gen N (eshots l) = Ret (map str l).
+Proof. exact convert_tuples_to_bitstrings_gen_is_model. Qed.
+Print Assumptions generated_convert_tuples_to_bitstrings_is_model.
+
+(* Measurements.get_counts, for every list of shots *)
+Theorem generated_get_counts_is_model : forall N shots,
+  Measurements_get_counts_gen N (eshots shots) = Ret (ecounts (get_counts shots)).
+Proof. exact get_counts_gen_is_model. Qed.
+Print Assumptions generated_get_counts_is_model.
+
+(* Measurements.__init__: no argument / None gives no shots, a list is kept *)
+Theorem generated_init_is_model : forall N,
+  Measurements_init_gen N None = Ret [] /\ forall l, Measurements_init_gen N (Some l) = Ret l.
+Proof. exact (fun N => conj (init_gen_none N) (init_gen_some N)). Qed.
+Print Assumptions generated_init_is_model.
+
+(* Measurements.add_counts / from_counts, for every dictionary (keys pairwise different) *)
+Theorem generated_add_counts_is_model : forall N shots d, NoDup (keys d) ->
+  Measurements_add_counts_gen N (eshots shots) (ecounts d) = Ret (eshots (add_counts shots d)).
+Proof. exact add_counts_gen_is_model. Qed.
+Print Assumptions generated_add_counts_is_model.
+
+Theorem generated_from_counts_is_model : forall N d, NoDup (keys d) ->
+  Measurements_from_counts_gen N (ecounts d) = Ret (eshots (from_counts d)).
+Proof. exact from_counts_gen_is_model. Qed.
+Print Assumptions generated_from_counts_is_model.
+
+(* Measurements.get_distribution, the MeasurementOutcomeDistribution constructor included (the constructor is the
+   definition generated by tr/tr_distributions.py): for shots of one width the result is the model's, keys as tuples,
+   values equal as rationals; shots of two different widths are rejected by the constructor (outside the model) *)
+Theorem generated_get_distribution_is_model : forall shots w, (forall s, In s shots -> List.length s = w) ->
+  DG.req (Measurements_get_distribution_gen num_Q (eshots shots)) (eres_dist (get_distribution shots)).
+Proof. exact get_distribution_gen_is_model. Qed.
+Print Assumptions generated_get_distribution_is_model.
+
+Theorem generated_get_distribution_ragged_rejected : forall shots s1 s2,
+  In s1 shots -> In s2 shots -> List.length s1 <> List.length s2 ->
+  Measurements_get_distribution_gen num_Q (eshots shots) = Raise DistTrSupport.RuntimeError.
+Proof. exact get_distribution_gen_ragged. Qed.
+Print Assumptions generated_get_distribution_ragged_rejected.
+
+(* check_parity on a tuple of ints and on a str, marked qubits in range; out of range the code raises IndexError
+   (the model function reads a missing bit as 0: it is used within the range only) *)
+Theorem generated_check_parity_is_model : forall N r marked, marked_ok (List.length r) marked = true ->
+  check_parity_gen N (py_key_of_ints (tup r)) (zs marked) = Ret (check_parity r marked) /\
+  check_parity_gen N (py_key_of_str (str r)) (zs marked) = Ret (check_parity r marked).
+Proof. exact (fun N r m H => conj (check_parity_gen_tuple_is_model N r m H) (check_parity_gen_str_is_model N r m H)). Qed.
+Print Assumptions generated_check_parity_is_model.
+
+Theorem generated_check_parity_out_of_range : forall N r marked, marked_ok (List.length r) marked = false ->
+  check_parity_gen N (py_key_of_ints (tup r)) (zs marked) = Raise DistTrSupport.IndexError /\
+  check_parity_gen N (py_key_of_str (str r)) (zs marked) = Raise DistTrSupport.IndexError.
+Proof. exact check_parity_gen_out_of_range. Qed.
+Print Assumptions generated_check_parity_out_of_range.
+
+(* _convert_bitstrings_to_vector on keys of one width, and check_parity_of_vector on its result *)
+Theorem generated_convert_bitstrings_to_vector_is_model : forall N (ks : list bits) w,
+  Forall (fun k => List.length k = w) ks ->
+  convert_bitstrings_to_vector_gen N (map str ks) =
+  match ks with
+  | [] => Raise DistTrSupport.IndexError
+  | _ => if Nat.eqb w 0 then Raise DistTrSupport.ValueError else Ret (Z.of_nat w, map tup ks)
+  end.
+Proof. exact convert_bitstrings_to_vector_gen_spec. Qed.
+Print Assumptions generated_convert_bitstrings_to_vector_is_model.
+
+Theorem generated_check_parity_of_vector_is_model : forall N ks w marked,
+  check_parity_of_vector_gen N (Z.of_nat w, map tup ks) (zs marked) =
+  if marked_ok w marked then Ret (map (n_int N) (check_parity_of_vector ks marked)) else Raise DistTrSupport.IndexError.
+Proof. exact check_parity_of_vector_gen_spec. Qed.
+Print Assumptions generated_check_parity_of_vector_is_model.
+
+(* get_expectation_value_from_frequencies = efreq (value and every error branch), for keys of one width; when nothing
+   raises the total count must not be 0 (then numpy returns nan with a warning, the model function 0) *)
+Theorem generated_efreq_is_model : forall marked (freq : counts) w,
+  Forall (fun kc => List.length (fst kc) = w) freq ->
+  (efreq_chk marked freq = None -> total freq <> 0%Z) ->
+  rq (get_expectation_value_from_frequencies_gen num_Q (zs marked) (ecounts freq)) (efreq marked freq).
+Proof. exact efreq_gen_is_model. Qed.
+Print Assumptions generated_efreq_is_model.
+
+Theorem generated_efreq_zero_total_is_not_finite : forall marked (freq : counts) w,
+  Forall (fun kc => List.length (fst kc) = w) freq -> efreq_chk marked freq = None -> total freq = 0%Z ->
+  get_expectation_value_from_frequencies_gen num_Q (zs marked) (ecounts freq) = Raise DistTrSupport.ZeroDivisionError.
+Proof. exact efreq_gen_zero_total. Qed.
+Print Assumptions generated_efreq_zero_total_is_not_finite.
+
+(* what get_expectation_values evaluates for every entry: the frequencies function on the object's own counts *)
+Theorem generated_efreq_of_counts_is_model : forall marked shots w, (forall s, In s shots -> List.length s = w) ->
+  rq (bind (Measurements_get_counts_gen num_Q (eshots shots))
+           (fun c => get_expectation_value_from_frequencies_gen num_Q (zs marked) c))
+     (efreq marked (get_counts shots)).
+Proof. exact efreq_of_counts_gen_is_model. Qed.
+Print Assumptions generated_efreq_of_counts_is_model.
+
+(* convert_bitstring_to_int has no model function: on bits it is the little-endian value, () is a ValueError *)
+Theorem generated_convert_bitstring_to_int_value : forall N r,
+  convert_bitstring_to_int_gen N (tup r) = match r with [] => Raise DistTrSupport.ValueError | _ => Ret (le_val r) end.
+Proof. exact convert_bitstring_to_int_gen_spec. Qed.
+Print Assumptions generated_convert_bitstring_to_int_value.
+
+(* the generated functions run: from_counts({"01": 2, "11": 0, "10": 1}), its counts, its distribution, <Z_0 Z_1> *)
+Example generated_functions_run :
+  let d := [("01", 2); ("11", 0); ("10", 1)]%string%Z in
+  Measurements_from_counts_gen num_Q d = Ret [[0; 1]; [0; 1]; [1; 0]]%Z /\
+  bind (Measurements_from_counts_gen num_Q d) (Measurements_get_counts_gen num_Q) = Ret [("01", 2); ("10", 1)]%string%Z /\
+  bind (Measurements_from_counts_gen num_Q d) (Measurements_get_distribution_gen num_Q)
+    = Ret [(py_key_of_ints [0; 1]%Z, inject_Z 2 / inject_Z 3); (py_key_of_ints [1; 0]%Z, inject_Z 1 / inject_Z 3)] /\
+  match get_expectation_value_from_frequencies_gen num_Q [0; 1]%Z [("01", 3); ("11", 1)]%string%Z with
+  | Ret x => Qeq_bool x (-1 # 2) = true
+  | Raise _ => False
+  end /\
+  convert_bitstring_to_int_gen num_Q [1; 1; 0]%Z = Ret 3%Z.
+Proof. vm_compute. repeat split; reflexivity. Qed.
